@@ -221,3 +221,14 @@ CHECKS["C10"] = dict(
           "table/points as in C01 inserted through the leader; 7 queries per cluster on the leader (SELECT *, grouped/ranged/derived/WHERE/LIMIT: pushdown and non-pushdown plans) "
           "compared with the reference over all points, and SELECT * on every follower compared with the reference over the points routed to its partition. "
           "non-trivial: P >= 2 / follower holds >= 1 point"))
+
+CHECKS["C13"] = dict(
+    stages=[dict(sub="c13", quick=5, thorough=60, shards=1)],
+    assumptions=["completeness is judged against a fault-free run of the same query on the same node(s) (the leader's oracle run is repeated until its own statistics report every partition)",
+                 "embedded: context deadlines already expired, and expiring while the k-th delivered row is being consumed (k = 0, 1, 2, n/2, n), on memstore-only, file-only and split data, with and without GROUP / ORDER stages",
+                 "cluster (in-process, 3 partitions): every subset of partitions answering with an error, and each single partition answering slower than the caller's deadline",
+                 "web: web.Configure on httptest with a 1ns query timeout and with a 200-byte response limit, /run and /immediate"],
+    trusted=_DB_TRUSTED,
+    what_fails="a result that omits data was returned without an error, without the partition being listed as missing, or with HTTP 200",
+    rule=("5 generated tables/datasets x 2-3 queries x 6 deadline placements (embedded); 1 cluster x 2-3 queries x (8 error subsets + 3 slow partitions); 3 web configurations x 2 routes. "
+          "Each outcome (complete?, error?, missing partition listed?, HTTP status) must satisfy: complete or told. non-trivial: the result is incomplete / a fault was injected"))
